@@ -2723,11 +2723,11 @@ func (p *Parser) evaluateSliceAssignment(ctx context) (Statement, error) {
 	if err != nil {
 		return nil, err
 	}
-	variableDataType := variableValueType.DataType()
-	assignedDataType := value.ValueType().DataType()
+	elementValueType := NewValueType(variableValueType.DataType(), false)
+	assignedValueType := value.ValueType()
 
-	if variableDataType != assignedDataType {
-		return nil, p.expectedError(fmt.Sprintf("%s value but got %s", variableDataType, assignedDataType), valueToken)
+	if !elementValueType.Equals(assignedValueType) {
+		return nil, p.expectedError(fmt.Sprintf("%s value but got %s", elementValueType.String(), assignedValueType.String()), valueToken)
 	}
 	return SliceAssignment{
 		Variable: variable,
